@@ -193,7 +193,7 @@ MUTANTS = [
      "find": "                    [self.buffer, data], axis=0, ignore_index=True",
      "replace": "                    [data, self.buffer], axis=0, ignore_index=True"},
     {"name": "append-overwrites-dict-buffer", "target": "mokapot.tabular_data.BufferedWriter.append_data",
-     "find": "            self.buffer += data", "replace": "            self.buffer = data"},
+     "find": "            self.buffer += [dict(row) for row in data]", "replace": "            self.buffer = [dict(row) for row in data]"},
     {"name": "parquet-index-offset-by-batch-length", "target": "mokapot.tabular_data.ParquetFileReader.get_chunked_data_iterator",
      "find": "df.index = df.index + i * chunk_size", "replace": "df.index = df.index + i * len(df)"},
     {"name": "parquet-index-not-shifted", "target": "mokapot.tabular_data.ParquetFileReader.get_chunked_data_iterator",
